@@ -393,6 +393,46 @@ func checkC04(p *Program, r *Report) {
 		r.Unresolved("C04.accepts", "(*ExtendedKey).Neuter")
 	}
 	r.Floor("C04.accepts", 1)
+	// round 7 (C04-agent7-m2): Address(net) constructs the address FOR net: what it returns is the result of an in-repo
+	// constructor that was handed the net argument itself (a detour through AddressPubKey.AddressPubKeyHash() re-derives
+	// the network from the legacy version byte, which regtest shares with testnet3)
+	if af := p.Func("hdkeychain", "(*ExtendedKey).Address"); af != nil && len(af.Params) == 2 {
+		net := ssa.Value(af.Params[1])
+		for i, ap := range acceptPoints(af) {
+			v := ap.Ret.Results[0]
+			if ex, ok := v.(*ssa.Extract); ok {
+				v = ex.Tuple
+			}
+			good, how := false, "the returned address is "+exprString(ap.Ret.Results[0])
+			if c, ok := v.(*ssa.Call); ok {
+				for _, a := range c.Call.Args {
+					if a == net {
+						good, how = true, "constructed by "+calleeName(&c.Call)+" with the net argument"
+					}
+				}
+			}
+			r.Add("C04.addr", FnName(af), fmt.Sprintf("accepting return #%d hands out an address constructed for the requested network", i+1), ap.Ret.Pos(), good, how)
+		}
+	} else {
+		r.Unresolved("C04.addr", "(*ExtendedKey).Address(net)")
+	}
+	r.Floor("C04.addr", 1)
+	// round 7: NewMaster refuses a seed for its length (outside 16..64 bytes — C04-agent7-m3: `seedLen%4 != 0`) or for the
+	// scalar it hashes to (C04-agent7-m1: an "all bytes zero" test on the seed itself), nothing else
+	if nm := p.Func("hdkeychain", "NewMaster"); nm != nil && len(nm.Params) >= 1 {
+		seed := ssa.Value(nm.Params[0])
+		isLen := func(v ssa.Value) bool {
+			c, ok := v.(*ssa.Call)
+			return ok && isBuiltin(&c.Call, "len") && c.Call.Args[0] == seed
+		}
+		if refusalsOutside(p, r, "C04.accepts", nm, isLen, func(lc *LinCtx) (Lin, bool) { return lc.LenLin(seed), true }, 16, 64, "16..64 bytes") == 0 {
+			r.Unresolved("C04.accepts", "refusals of NewMaster on the seed length")
+		}
+		rejectionVocabulary(p, r, "C04.accepts", nm, []string{`len\(param \w+\)`, `call .*big\.Int\)\.Cmp`, `call .*big\.Int\)\.Sign`},
+			"the seed's length and the range of the scalar derived from it")
+	} else {
+		r.Unresolved("C04.accepts", "NewMaster(seed)")
+	}
 
 	child := p.Func("hdkeychain", "(*ExtendedKey).Child")
 	master := p.Func("hdkeychain", "NewMaster")
